@@ -180,6 +180,71 @@ Section BatchModel.
 
   Definition single_one (x : frame) : list (option inst) :=
     map (fun ch => match rough ch with None => None | Some p => Some (refine ch p) end) (cmaps x).
+
+  (* ---- centroid-only top-down (centered-instance model = None): CentroidCrop with
+     return_crops = False returns the NaN-padded (batch, M) table for EVERY batch (a
+     batch without any detection gives one all-NaN row per sample, max_instances or 1
+     wide), and FindInstancePeaksGroundTruth matches every centroid to the nearest
+     labelled instance of its own sample:
+       subs = argwhere(finite match)            -> flat (sample, instance) list, sample-major
+       counts = bincount(matched_batch_inds)    -> gt_count
+       for i in range(b): `if i not in matched_batch_inds` NaN rows, else
+           peaks_list[parsed : parsed + c] padded with NaN / cut to max_inst; parsed += c *)
+  Variable ginst : Type.
+  Variable gmatch : frame -> peak -> option ginst.   (* None = every distance is inf *)
+
+  Definition centroid_table (maxinst : option nat) (xs : list frame) : list (list (option peak)) :=
+    match centroid_rows maxinst xs with
+    | Some rows => rows
+    | None => map (fun _ => repeat None (match maxinst with Some k => k | None => 1%nat end)) xs
+    end.
+
+  Definition row_matches (img : frame) (row : list (option peak)) : list ginst :=
+    somes (map (fun o => match o with Some p => gmatch img p | None => None end) row).
+
+  Fixpoint gt_flat (b : nat) (rows : list (list (option peak))) (imgs : list frame) : list (nat * ginst) :=
+    match rows, imgs with
+    | row :: rt, img :: it => map (pair b) (row_matches img row) ++ gt_flat (S b) rt it
+    | _, _ => []
+    end.
+
+  Definition gt_count (all : list (nat * ginst)) (i : nat) : nat :=
+    length (filter (fun p => fst p =? i) all).
+
+  Definition pad_to (M : nat) (l : list ginst) : list (option ginst) :=
+    if length l <? M then map Some l ++ repeat None (M - length l) else map Some (firstn M l).
+
+  Fixpoint gt_parse (M : nat) (all : list (nat * ginst)) (parsed i n : nat) : list (list (option ginst)) :=
+    match n with
+    | O => []
+    | S n' =>
+        if existsb (fun p => fst p =? i) all
+        then let c := gt_count all i in
+             pad_to M (map snd (firstn c (skipn parsed all))) :: gt_parse M all (parsed + c) (S i) n'
+        else repeat None M :: gt_parse M all parsed (S i) n'
+    end.
+
+  (* one batch through TopDownInferenceModel(CentroidCrop(return_crops=False),
+     FindInstancePeaksGroundTruth): ONE output dictionary whose b-th entries are
+     (frame_idx, video_idx, centroid row, matched-instance rows) *)
+  Definition centroid_only_batch (maxinst : option nat) (M : nat) (fs : list src)
+    : list (nat * nat * list (option peak) * list (option ginst)) :=
+    let imgs := map s_img fs in
+    let rows := centroid_table maxinst imgs in
+    let peaks := gt_parse M (gt_flat 0%nat rows imgs) 0%nat 0%nat (length imgs) in
+    map (fun r : src * (list (option peak) * list (option ginst)) =>
+           (s_fidx (fst r), s_vidx (fst r), fst (snd r), snd (snd r)))
+        (combine fs (combine rows peaks)).
+
+  (* _predict_generator: one such dictionary per chunk of batch_size frames *)
+  Definition centroid_only_stream (maxinst : option nat) (M batch_size : nat) (fs : list src) :=
+    flat_map (centroid_only_batch maxinst M) (chunks (length fs) batch_size fs).
+
+  (* the per-frame meaning *)
+  Definition centroid_only_one (maxinst : option nat) (M : nat) (s : src) : nat * nat * list peak * list (option ginst) :=
+    let ps := kept maxinst (detect (s_img s)) in
+    (s_fidx s, s_vidx s, ps,
+     pad_to M (somes (map (gmatch (s_img s)) ps))).
 End BatchModel.
 
 (* ---- harness entry: peaks are (id, value); the instance stage is the identity *)
@@ -188,11 +253,13 @@ Definition hframe := list hpeak.
 
 Inductive case :=
 | CStream (maxinst : option nat) (batch_size : nat) (fs : list (nat * nat * hframe))   (* (frame_idx, video_idx, peaks) *)
-| CRows (maxinst : option nat) (fs : list hframe).
+| CRows (maxinst : option nat) (fs : list hframe)
+| CGt (maxinst : option nat) (M batch_size : nat) (fs : list (nat * nat * hframe)).   (* centroid-only: peak id = id of the labelled instance it matches *)
 
 Inductive result :=
 | RStream (out : list (nat * nat * list nat))
-| RRows (rows : option (list (list (option nat)))).
+| RRows (rows : option (list (list (option nat))))
+| RGt (out : list (nat * nat * list (option nat) * list (option nat))).
 
 Definition mk_src (f : nat * nat * hframe) : src hframe :=
   {| s_img := snd f; s_fidx := fst (fst f); s_vidx := snd (fst f) |}.
@@ -207,6 +274,10 @@ Definition run (c : case) : result :=
              | None => None
              | Some rows => Some (map (map (option_map fst)) rows)
              end)
+  | CGt mi M bs fs =>
+      RGt (map (fun r : nat * nat * list (option hpeak) * list (option nat) =>
+                  (fst (fst (fst r)), snd (fst (fst r)), map (option_map fst) (snd (fst r)), snd r))
+               (centroid_only_stream hframe hpeak (fun x => x) snd nat (fun _ p => Some (fst p)) mi M bs (map mk_src fs)))
   end.
 
 From SV Require Import Base.Render.
@@ -214,4 +285,7 @@ Definition rresult (r : result) : rdr :=
   match r with
   | RStream out => rlist (rtriple rnat rnat (rlist rnat)) out
   | RRows rows => ropt (rlist (rlist (ropt rnat))) rows
+  | RGt out => rlist (fun r : nat * nat * list (option nat) * list (option nat) =>
+                        rlist (fun x => x) [rnat (fst (fst (fst r))); rnat (snd (fst (fst r)));
+                                            rlist (ropt rnat) (snd (fst r)); rlist (ropt rnat) (snd r)]) out
   end.
